@@ -14,26 +14,7 @@ Open Scope list_scope.
 Arguments way_line : simpl never.
 Arguments has_interesting : simpl never.
 
-Definition member_way (d : osm) (m : member) : option way :=
-  match way_lookup d (m_ref m) with
-  | Some w => Some w
-  | None => match m_nodes m with [] => None | ns => Some (pseudo_way (m_ref m) ns) end
-  end.
-
-Definition is_outer_way (m : member) : bool :=
-  etype_eqb (m_type m) TWay && String.eqb (m_role m) "outer".
-Definition outer_members (r : relation) : list member := filter is_outer_way (r_members r).
-
-Definition adopts (d : osm) (r : relation) : list Z :=
-  if is_mp r && negb (has_interesting (r_tags r) (Some old_style_ignore)) then
-    match outer_members r with
-    | [m] => match member_way d m with
-             | Some w => if ring_invalid (omap (resolve d) (w_nodes w)) then [] else [w_id w]
-             | None => []
-             end
-    | _ => []
-    end
-  else [].
+(* [member_way], [is_outer_way], [outer_members], [adopts]: C17/Spec.v (input-only definitions) *)
 
 (* the refs of the way-typed features of a list *)
 Definition way_keys (fs : list feature) : list Z :=
